@@ -4,6 +4,7 @@
    [forallb]) and do not mention how the webhook records the amounts or how the hook iterates. *)
 From Coq Require Import List ZArith Bool.
 From Verif Require Import C14.Model.
+From Verif Require Export C14.Std.
 Import ListNotations.
 Open Scope Z_scope.
 
@@ -26,11 +27,11 @@ Definition unlimited : Z := -1.
    relates it to the exact rational quotient (c14_ratio_above_one) *)
 Definition normalized (r q : Z) : Z := if 100 <? r then ratio_div_ceil r q else q.
 
-(* ---------- expected values: container ---------- *)
+(* ---------- expected values: container (standard conversions of Std.v, literal numbers) ---------- *)
 
-Definition want_ctr_shares (c : ctr) : Z := MilliCPUToShares (declared (reqC c)).
+Definition want_ctr_shares (c : ctr) : Z := std_shares (declared (reqC c)).
 Definition want_ctr_quota (g : cfg) (c : ctr) : Z :=
-  if cfsOn g && limited (limC c) then normalized (ratio g) (MilliCPUToQuota (amount (limC c)))
+  if cfsOn g && limited (limC c) then normalized (ratio g) (std_quota (amount (limC c)))
   else unlimited.
 Definition want_ctr_mem (c : ctr) : Z := if limited (limM c) then amount (limM c) else unlimited.
 
@@ -40,10 +41,10 @@ Definition all_cpu_limited (cs : list ctr) : bool := forallb (fun c => limited (
 Definition all_mem_limited (cs : list ctr) : bool := forallb (fun c => limited (limM c)) cs.
 
 Definition want_pod_shares (cs : list ctr) : Z :=
-  MilliCPUToShares (sumZ (map (fun c => declared (reqC c)) cs)).
+  std_shares (sumZ (map (fun c => declared (reqC c)) cs)).
 Definition want_pod_quota (g : cfg) (cs : list ctr) : Z :=
   if cfsOn g && all_cpu_limited cs
-  then normalized (ratio g) (MilliCPUToQuota (sumZ (map (fun c => amount (limC c)) cs)))
+  then normalized (ratio g) (std_quota (sumZ (map (fun c => amount (limC c)) cs)))
   else unlimited.
 Definition want_pod_mem (cs : list ctr) : Z :=
   if all_mem_limited cs then sumZ (map (fun c => amount (limM c)) cs) else unlimited.
@@ -53,7 +54,7 @@ Definition want_pod_mem (cs : list ctr) : Z :=
 (* a field the hook left untouched keeps the kubelet's setting for a pod that declares no native
    cpu/memory: unlimited quota and memory, minimum shares *)
 Definition eff_unl (o : option Z) : Z := match o with Some v => v | None => unlimited end.
-Definition eff_shares (o : option Z) : Z := match o with Some v => v | None => CPUSharesMinValue end.
+Definition eff_shares (o : option Z) : Z := match o with Some v => v | None => std_shares_min end.
 
 Definition is_val (o : option Z) (v : Z) : Prop := o = Some v.
 Definition is_valb (o : option Z) (v : Z) : bool := match o with Some x => x =? v | None => false end.
@@ -103,17 +104,17 @@ Definition sum_quota (rs : list res) : Z := sumZ (map (fun r => eff_unl (quota r
 Definition sum_mem (rs : list res) : Z := sumZ (map (fun r => eff_unl (mem r)) rs).
 Definition near_sum (g : cfg) (cs : list ctr) (o : obs) : Prop :=
   let p := fst o in let rs := snd o in let n := Z.of_nat (length cs) in
-  (eff_shares (shares p) < CPUSharesMaxValue ->
-     eff_shares (shares p) <= sum_shares rs + n /\ sum_shares rs <= eff_shares (shares p) + n * CPUSharesMinValue)
+  (eff_shares (shares p) < std_shares_max ->
+     eff_shares (shares p) <= sum_shares rs + n /\ sum_shares rs <= eff_shares (shares p) + n * std_shares_min)
   /\ (cfsOn g = true -> all_cpu_limited cs = true ->
-     eff_unl (quota p) <= sum_quota rs + (if 100 <? ratio g then n else 0) /\ sum_quota rs <= eff_unl (quota p) + n * CFSQuotaMinValue)
+     eff_unl (quota p) <= sum_quota rs + (if 100 <? ratio g then n else 0) /\ sum_quota rs <= eff_unl (quota p) + n * std_quota_min)
   /\ (all_mem_limited cs = true -> eff_unl (mem p) = sum_mem rs).
 Definition near_sumb (g : cfg) (cs : list ctr) (o : obs) : bool :=
   let p := fst o in let rs := snd o in let n := Z.of_nat (length cs) in
-  (negb (eff_shares (shares p) <? CPUSharesMaxValue)
-   || ((eff_shares (shares p) <=? sum_shares rs + n) && (sum_shares rs <=? eff_shares (shares p) + n * CPUSharesMinValue)))
+  (negb (eff_shares (shares p) <? std_shares_max)
+   || ((eff_shares (shares p) <=? sum_shares rs + n) && (sum_shares rs <=? eff_shares (shares p) + n * std_shares_min)))
   && (negb (cfsOn g) || negb (all_cpu_limited cs)
-      || ((eff_unl (quota p) <=? sum_quota rs + (if 100 <? ratio g then n else 0)) && (sum_quota rs <=? eff_unl (quota p) + n * CFSQuotaMinValue)))
+      || ((eff_unl (quota p) <=? sum_quota rs + (if 100 <? ratio g then n else 0)) && (sum_quota rs <=? eff_unl (quota p) + n * std_quota_min)))
   && (negb (all_mem_limited cs) || (eff_unl (mem p) =? sum_mem rs)).
 
 (* ---------- the property ---------- *)
